@@ -1,7 +1,7 @@
 (* C07 — Flushed log data survives a process crash at any instant.
    Statements only; proofs in SigP.FlushProtoProofs.
-   A history is any list of flushes (with any number of column-file and .sst writes) and
-   rotations; [ops_of h] is the sequence of file-system calls the writer issues (checked
+   A history is any list of flushes (with any number of column-file and .sst writes),
+   rotations, persistent-query appends and forced flushes (graceful shutdown: flush + rotation in one call); [ops_of h] is the sequence of file-system calls the writer issues (checked
    against strace of the real writer on every run); a crash after k calls leaves the state
    [run fs0 (firstn k (ops_of h))]; [visible] is what the real start-up adopts. *)
 From SigM Require Import Base FlushProto.
@@ -30,6 +30,34 @@ Theorem C07_inplace_sfm_refuted :
   ~ In (0, 0) (visible (run fs0 (firstn 11 (ops_of_inplace h))) (nsegs h)).
 Proof. exact crash_safe_inplace_refuted. Qed.
 Print Assumptions C07_inplace_sfm_refuted.
+
+(* ---- crash DURING A FORCED ROTATION (graceful shutdown: ForcedFlushToSegfile -> AppendWipToSegfile(forceRotate = true)):
+   the step [ForcedFlush m n p] is the buffer flush of the open block (column writes, block summary, .sst, running .sfm,
+   pqmr appends) followed IN THE SAME CALL by the rotation (final .sfm through tmp + rename, segmeta.json line).
+   C07_crash_visible_exact / C07_crash_safe above quantify over histories that contain such steps and over every crash
+   point inside them.  Spelled out for the window the shutdown opens: after ANY history h1, once the buffer flush of
+   the shutdown has returned (m + n + 5 calls: its .sfm is renamed), its block - number [pos_after h1] - is searchable
+   after a crash at EVERY later call of the rotation and of whatever follows. ---- *)
+Theorem C07_forced_rotation_keeps_shutdown_flush : forall (h1 : list hstep) (m n p : nat) (h2 : list hstep) (k : nat),
+  length (ops_of h1) + (m + n + 5) <= k ->
+  let h := h1 ++ ForcedFlush m n p :: h2 in
+  In (pos_after h1) (visible (run fs0 (firstn k (ops_of h))) (nsegs h)).
+Proof. exact forced_rotation_keeps_shutdown_flush. Qed.
+Print Assumptions C07_forced_rotation_keeps_shutdown_flush.
+
+(* Leaving the running .sfm of the shutdown flush to the rotation ("the rotation writes the final .sfm anyway") violates
+   the property: all files of the flush are on disk after 4 calls, and a crash at any of the next calls before the final
+   rename (k = 4, 5, 6) leaves the segment without a .sfm - its only block is never adopted; the complete run and the
+   real protocol from its 7th call on show the block. *)
+Theorem C07_forced_rotation_skip_running_sfm_refuted :
+  let h := [ForcedFlush 1 1 0] in
+  let ops := forced_ops_skip_running_sfm 0 0 1 1 0 in
+  length ops = 8 /\
+  (forall k, 4 <= k -> k < 7 -> visible (run fs0 (firstn k ops)) (nsegs h) = []) /\
+  visible (run fs0 ops) (nsegs h) = [(0, 0)] /\
+  (forall k, 7 <= k -> visible (run fs0 (firstn k (ops_of h))) (nsegs h) = [(0, 0)]).
+Proof. exact forced_rotation_skip_running_sfm_refuted. Qed.
+Print Assumptions C07_forced_rotation_skip_running_sfm_refuted.
 
 (* ---- "later ingestion does not overwrite recovered data": the per-stream suffix file.
    FULL STATEMENT: after a crash that follows ANY number k of the system calls of ANY number n of segment
